@@ -1,5 +1,7 @@
 import AlphaG.Model.BankName
 import AlphaG.Model.Maps
+import AlphaG.Lemmas.MapsArms
+import AlphaG.Lemmas.MapsTables
 /-
 Line-protocol handler of C08 (and the bank-name part of C01):
 
@@ -16,6 +18,7 @@ Line-protocol handler of C08 (and the bank-name part of C01):
   w2c <wire> / c2w <col> / phiidx <wire>
   caldispatch <which> <run>       → ok <arm index> table <static> <file> | ok <arm index> value <n> | err V
   calhas <which> <run>            → some [<n>] | none
+  c08check                        executable versions of the kernel obligations (diagnosis)
 -/
 namespace AlphaG.Driver.C08
 open AlphaG AlphaG.Generated AlphaG.BankName AlphaG.Maps
@@ -94,6 +97,32 @@ def padMapLine (run board : Nat) : String :=
   " ".intercalate ((List.range 4).flatMap fun chip =>
     (List.range 72).map fun i => tok cpair (padPosition run board chip (i + 1)))
 
+/-- `c08check`: the executable versions of the kernel obligations of Props/C08Maps.lean, one
+`name=true|false` token each, with the offending element when one fails (used to find the
+colliding pair / missing element after a failed `decide`). -/
+def checkLine : String :=
+  let b (x : Bool) : String := if x then "true" else "false"
+  let wires := preampTables.flatMap fun t => channelTables.map fun c =>
+    s!"wire[{t.1},{c.1}]={b (wireTablesOk t.2 c.2)}"
+  let pwbs := pwbTables.map fun t =>
+    let badCell := (List.range 64).find? fun k =>
+      match pwbAt t.2 k with
+      | some bd => !(decide (bd < padwingBoards.length) && (pwbLookup t.2 bd == some (k / 8, k % 8)))
+      | none => true
+    s!"pwb[{t.1}]={b (pwbTableOk t.2)}" ++
+      (match badCell with
+       | some k => s!"(cell {k / 8},{k % 8} `{(pwbFlat t.2).getD k "?"}`)"
+       | none => "")
+  let arms (nm : String) (a : Arms) : List String :=
+    let shadowed := (List.range a.length).filter fun i =>
+      !((0 :: cutsOf a).any fun c => dispatchIdx a c == some i)
+    [s!"split[{nm}]@{firstMapRun a}={b (armsSplitAt a (firstMapRun a))}",
+     s!"shadowed[{nm}]={shadowed}"]
+  let padBad := (List.range 288).filter fun i => padEnc i ≥ 288
+  " ".intercalate (wires ++ pwbs ++ [s!"pads={b padOk}", s!"padsBad={padBad}"]
+    ++ arms "wirePreamp" wirePreampArms ++ arms "wireChannel" wireChannelArms ++ arms "pwb" pwbArms
+    ++ calArms.flatMap fun c => arms c.1 c.2.1)
+
 def showRhs (maps : List (String × String)) : Nat × ArmRhs → String
   | (i, .table j) =>
     let m := maps.getD j ("?", "?")
@@ -152,6 +181,7 @@ def handle (cmd : String) (args : List String) : Option String :=
     match run.toNat?, pwbBoardIdx board with
     | some run, some b => some s!"ok {padMapLine run b}"
     | _, _ => some "bad-request"
+  | "c08check", [] => some s!"ok {checkLine}"
   | "w2c", [w] =>
     match w.toNat? with
     | some w => some s!"ok {wireToPadColumn w}"
